@@ -22,7 +22,7 @@ ASSUMPTIONS = [
     "stub connectors (get_available_locations returns fixed AvailableLocation objects), StubDeploymentManager, stub HardwareRequirement.eval, DetLoop; retry_interval=None (no polling timer)",
     "remotepath.get_storage_usages is replaced by a stub returning a symbolic measured usage; sizes are whole MiB so that bytes/2**20 is exact (no IEEE rounding: see C14 for the float envelope)",
     "the float zero defaults of Hardware() (cores=0.0, memory=0.0, Storage('/', 0.0)) are replaced by integer 0 so that all ledger arithmetic is exact integer arithmetic",
-    "amounts are exact integers 0..64; each job requires one storage on the location's single mount point '/'",
+    "amounts are exact integers 0..64; each job requires one storage (in the *_2entries obligations: two storage entries, outdir and tmpdir) on the location's single mount point '/'",
     "the measured usage of a job's directories never exceeds its declared storage requirement (otherwise the ledger can exceed the capacity and Hardware.__sub__ raises 'negative size' inside _is_valid: noted in DESIGN.md as an observation outside C10-C12)",
     "callers' lifecycle (what ExecuteStep._run_job, ScheduleStep and RollbackFailureManager do): schedule only for a job that is unallocated or in ROLLBACK; RUNNING only from FIREABLE (or repeated while RUNNING); "
     "COMPLETED/FAILED/CANCELLED from FIREABLE, RUNNING, RECOVERY or another terminal status (duplicates and out-of-order terminal notifications included); RECOVERY from FIREABLE, RUNNING or FAILED; ROLLBACK from COMPLETED, FAILED or RECOVERY; no notification for a job whose schedule request is still waiting",
@@ -51,7 +51,7 @@ T = (
 IMPORTS = "from harness.sched_lib import run_history"
 
 
-def _spec(prop, oracle, topo, nloc, prefix, L, bindings, hi=64, cond=900, fix_first=None, dims="cmd", usage_sym=True, tagname=""):
+def _spec(prop, oracle, topo, nloc, prefix, L, bindings, hi=64, cond=900, fix_first=None, dims="cmd", usage_sym=True, tagname="", two_entries=False):
     """dims: which of cores/memory/disk are symbolic (the others are 0 for capacity and requirement)."""
     nj = len(prefix)
     params, pre = [], []
@@ -83,6 +83,13 @@ def _spec(prop, oracle, topo, nloc, prefix, L, bindings, hi=64, cond=900, fix_fi
             pre.append(f"0 <= usage <= {hi}")
             # jobs stay within their declared storage requirement
             pre += [f"usage <= rd{j}" for j in range(nj)]
+    split_expr = ""
+    if two_entries:
+        names = [f"rt{j}" for j in range(nj)]
+        params += [f"{n}: int" for n in names]
+        pre += [f"0 <= {n} <= {hi}" for n in names]
+        split_expr = ", split=[" + ", ".join(names) + "]"
+        usage_sym = False
     ops = [f"o{i}" for i in range(L)]
     sym_ops = ops if fix_first is None else ops[1:]
     params += [f"{o}: int" for o in sym_ops]
@@ -94,16 +101,19 @@ def _spec(prop, oracle, topo, nloc, prefix, L, bindings, hi=64, cond=900, fix_fi
         extra = ", slots=slots"
     elif usage_sym:
         extra = ", usage=usage"
-    call = f"run_history({topo!r}, {caps_expr}, {req_expr}, {bindings!r}, {list(prefix)!r}, {ops_expr}, {oracle!r}{extra})"
+    if two_entries:
+        extra = ""
+    call = f"run_history({topo!r}, {caps_expr}, {req_expr}, {bindings!r}, {list(prefix)!r}, {ops_expr}, {oracle!r}{extra}{split_expr})"
     pname = "".join(ST_NAMES[s][:2] for s in prefix)
     return Spec(
-        name=f"{topo}_{pname}_L{L}_{dims}" + ("" if fix_first is None else f"_f{fix_first}") + tagname,
+        name=f"{topo}_{pname}_L{L}_{dims}" + ("" if fix_first is None else f"_f{fix_first}") + tagname + ("_2entries" if two_entries else ""),
         group=f"{prop} on topology '{topo}'",
         source=mk_source(IMPORTS, ", ".join(params), pre, call),
         cond=cond,
         path=90,
         bound=f"topology {topo}; {nj} jobs with targets {bindings}; canonical prefixes to statuses {[ST_NAMES[s] for s in prefix]}; then {L} operations with symbolic codes over {nj} jobs x {OPS}"
         + ("" if fix_first is None else f" (partition: first code {fix_first})")
+        + ("; every job declares TWO storage entries (outdir, tmpdir) on the same mount point, both sizes symbolic" if two_entries else "")
         + (f"; symbolic dimensions {dims} (c=cores, m=memory, d=disk; the others 0){', measured usage symbolic' if usage_sym else ''}, ints 0..{hi}" if topo != "slots" else "; slots symbolic 1..2"),
         symbolic=f"{len(params)} ints",
         targets=T,
@@ -123,6 +133,9 @@ def gen(prop, oracle, tier):
     # (1) one step from every pair of designated statuses, all three dimensions symbolic
     for pr in pairs:
         out.append(_spec(prop, oracle, "one", 1, pr, 1, two, dims="cd" if quick else "cmd", cond=big))
+    # (1b) two storage entries per job on one mount point (CWL outdir + tmpdir on one volume)
+    for pr in [(NONE, NONE), (RUNNING, NONE), (FIREABLE, NONE), (RUNNING, RUNNING)] + ([] if quick else [(COMPLETED, NONE), (ROLLBACK, NONE), (RUNNING, FIREABLE)]):
+        out.append(_spec(prop, oracle, "one", 1, pr, 1 if quick else 2, two, dims="d", cond=big, two_entries=True))
     # (2) two steps
     sel = [(NONE, NONE), (FIREABLE, NONE), (RUNNING, NONE), (RUNNING, RUNNING), (RUNNING, ROLLBACK), (COMPLETED, RUNNING)]
     for pr in sel[:4] if quick else pairs:
